@@ -90,3 +90,15 @@ PENDING.pop("C18", None)
 _p("C20", "other",
    "Static necessary conditions of 'circuit equality is an equivalence consistent with meaning': for every IR class the __eq__ it uses reads every semantic field stored by __init__ on both operands (per-symbol exemptions with reasons); element-wise pairings are length-sensitive (zip_longest or a length comparison, never a bare zip); every __eq__ is total (a foreign operand yields False, not AttributeError -- a necessary condition of symmetry); no field is compared by identity and no __eq__ returns True before all fields are read. Reflexivity/symmetry/discrimination as run-time facts are not decided.")
 PENDING.pop("C20", None)
+
+_p("C15", "other",
+   "Static necessary conditions of 'result views are normalised and mutually consistent (little-endian)': every int->bitstring conversion in the result layer is binary, padded to the number of measured qubits and reversed, and the string->int conversion reverses too (same parity: qubit 0 = LSB = leftmost character); every *_by_str view enumerates the same data as its *_by_int sibling in integer order; accept_readout appends once and adds exactly 1 to the readout's own bin; deprecated aliases return the view of the same kind. Unrecognised conversion idioms are reported as undecided. Normalisation arithmetic (clip, division) is declined.")
+PENDING.pop("C15", None)
+
+_p("C08", "other",
+   "Narrow structural claim: every process_trace implementation (emulator walker, hardware-output parser) selects self.subcircuits[self.index], builds exactly one Readout numbered with the running readout index, passes it to accept_readout of that same subcircuit, appends it to one result list and advances the readout index by one (sibling agreement of effect summaries); the base walker advances self.index on every path after each process_trace call (CFG) and its loop handler repeats the body loop.iterations times with the walk state restored; counting in accept_readout is decided under C15.3. Termination and visit order of the trace walker are declined (no sound static rule without false alarms).")
+PENDING.pop("C08", None)
+
+_p("C17", "other",
+   "Static necessary conditions of 'Jaqal text, the builder API and Q-syntax build the same circuit': S-expression protocol agreement -- every list/tuple display with a known head emitted by the parser actions, Q-syntax, the OO builder and the two re-serialising passes is consumed by a build_<head> whose destructuring accepts its arity (starred parts of parser actions are resolved through per-nonterminal length sets), and no default-argument path emits both the default and the missing argument; every parameter of the public builder / Q methods reaches the emitted S-expression or returned object (no dead parameter); the auto-namer checks generated names against both user-name lists and only leaves its loop on a fresh name; the implicit prepare/measure are guarded by one flag around the statement loop and the starts_with_prepare overrides have the stated shape. Does not decide equality of the three circuits.")
+PENDING.pop("C17", None)
